@@ -12,14 +12,15 @@ def hexs(b):
 
 
 def make_world(base, pre, uid=None):
-    """base/root (cwd of the run), base/outside/canary; pre: list of (kind, relpath bytes, payload)"""
+    """base/root (cwd of the run), base/outside/canary, base/outside/sub/ (0700); pre: list of (kind, relpath bytes, payload)"""
     root = os.path.join(base, b"root")
     outside = os.path.join(base, b"outside")
     os.mkdir(root)
     os.mkdir(outside)
     with open(os.path.join(outside, b"canary"), "wb") as f:
         f.write(b"canary")
-    made = [root, outside, os.path.join(outside, b"canary")]
+    os.mkdir(os.path.join(outside, b"sub"))            # a directory whose mode and time a misdirected chmod / utime would change
+    made = [root, outside, os.path.join(outside, b"canary"), os.path.join(outside, b"sub")]
     for kind, rel, payload in pre:
         p = os.path.join(root, rel)
         os.makedirs(os.path.dirname(p), exist_ok=True)
@@ -33,6 +34,7 @@ def make_world(base, pre, uid=None):
         elif kind == "l":
             os.symlink(payload, p)
         made.append(p)
+    os.chmod(os.path.join(outside, b"sub"), 0o700)
     for p in made:
         if not os.path.islink(p):
             os.utime(p, (1000, 1000))
